@@ -83,7 +83,7 @@ def run_case(c):
                     ev["out"] = [out_bits(model(x)) for x in probes]
                 elif step == "calibrate":
                     with Calibration(streamline=False):
-                        model((torch.randn(*c["input"], generator=gen) * 2).to(dtype))
+                        model((torch.randn(*c["input"], generator=gen) * 2).to(probes[0].dtype))
                     ev["out"] = [out_bits(model(x)) for x in probes]
                 elif step == "freeze":
                     before = [out_bits(model(x)) for x in probes]
@@ -93,6 +93,7 @@ def run_case(c):
                     ev["after"] = [out_bits(model(x)) for x in probes]
                     ev["snap_before"] = snap_before
                     ev["snap_after"] = snapshot(model)
+                    ev["dtype"] = str(probes[0].dtype).replace("torch.", "")
                 elif step == "to_cpu":
                     before = [out_bits(model(x)) for x in probes]
                     model = model.to("cpu")
@@ -101,6 +102,15 @@ def run_case(c):
                     before = [out_bits(model(x)) for x in probes]
                     model = model.to(torch.device("cpu"), non_blocking=True)
                     ev["before"], ev["after"] = before, [out_bits(model(x)) for x in probes]
+                elif step == "to_dtype":
+                    # conversion of the whole model to another float dtype (Module.to keeps the Parameter objects and their version
+                    # counters): outputs may change, but the model must keep re-quantizing from its current weights
+                    order = [torch.float32, torch.float16, torch.bfloat16, torch.float64]
+                    cur = probes[0].dtype
+                    new = order[(order.index(cur) + 1 + (c["seed"] % 2)) % 3] if cur in order[:3] else torch.float32
+                    model = model.to(new)
+                    probes = [p_.to(new) for p_ in probes]
+                    ev["out"] = [out_bits(model(x)) for x in probes]
                 elif step == "deepcopy":
                     before = [out_bits(model(x)) for x in probes]
                     snap_before = snapshot(model)
@@ -128,6 +138,11 @@ def run_case(c):
 
 def main():
     payload = json.loads(sys.stdin.read())
+    if payload.get("prelude", True):
+        import os as _os
+        sys.path.insert(0, _os.path.dirname(_os.path.abspath(__file__)))
+        from prelude import run_prelude
+        run_prelude()
     out = []
     for c in payload["cases"]:
         try:
